@@ -106,8 +106,26 @@ class C08(Prop):
         # (the binding sibling listed FIRST: which of two DIFFERENT inner bindings surfaces is the recorded finding C02-F3)
         return {"program": [g1, g2, {"name": "root", "nodes": top, "bound": []}], "values": [["x", rng.randint(0, 3)], ["u", rng.randint(0, 3)], ["k", rng.randint(10, 19)]]}
 
+    @staticmethod
+    def _renamed_onto_bound_name(rng: random.Random) -> dict:
+        """The inner graph binds `y` and leaves `x` free; the wrapper renames both in ONE call so that the free parameter takes the NAME of
+        the bound one (y -> cfg, x -> y): the wrapper's `y` is the free inner `x` — required — whatever the inner graph binds under that name."""
+        fn = gen._fn_node
+        inner = {"name": "g0", "nodes": [fn("work", [["x", None], ["y", None]], ["out"], {"b": "tag", "t": "work"})], "bound": [["y", rng.randint(1, 9)]]}
+        ren = rng.choice([[["y", "cfg"], ["x", "y"]], [["x", "y"], ["y", "x"]]])
+        top = [fn("prep", [["seed", None]], ["pre"], {"b": "sum", "k": 1}), {"name": "w", "kind": "graph", "inner": 0, "inRen": ren},
+               fn("fin", [["out", None], ["pre", None]], ["res"], {"b": "tag", "t": "fin"})]
+        rng.shuffle(top)
+        prog = [inner, {"name": "root", "nodes": top, "bound": []}]
+        if rng.random() < 0.4:
+            prog.append({"name": "root2", "nodes": [{"name": "lvl", "kind": "graph", "inner": 1}], "bound": []})
+        return {"program": prog, "values": [["seed", rng.randint(0, 3)], ["y", rng.randint(10, 19)], ["x", rng.randint(20, 29)], ["cfg", rng.randint(30, 39)]]}
+
     def cases(self, rng: random.Random, tier: str) -> Iterable[dict]:
         C08._variant = -1
+        for _ in range(3):      # whatever the seed
+            c = self._renamed_onto_bound_name(rng)
+            yield {"program": copy.deepcopy(c["program"]), "known": c["values"], "rtselect": None, "ops": {"renamedOntoBound": 1}, "runner": rng.choice(["sync", "async"])}
         for _ in range(2):      # whatever the seed
             c = self._sibling_nested_binding(rng)
             for runner in ("sync", "async"):
